@@ -14,15 +14,17 @@ semi-definite; the 1-D blade flange kernels are the Hessians of the beam energie
 `Spec/StiffInterface.lean`) — symmetric, positive semi-definite exactly as far as the encoded weights are (`blade1d_kMf_psd_partial`,
 `blade1d_kMf_not_psd_counterexample`).
 
-What is NOT proved here (checked numerically on the implementation by the plugin only): that a CONNECTION or STIFFENER kernel
+What is NOT proved here (checked numerically on the implementation by the plugin only): that a STIFFENER kernel
 asked to write at `(row0, col0)` returns its stand-alone matrix shifted there (for the PANEL kernels it is proved from the
-loop-nest model: `panel_kernel_placement`); additivity of the skin kernels over adjacent
+loop-nest model: `panel_kernel_placement`; for the penalty-CONNECTION kernels from the hand model of their nests, Model/ConnLoop.lean, which no
+`LoopSchema` theorem ties to the source: `conn_kernel_placement`); additivity of the skin kernels over adjacent
 `y` intervals (hypothesis `hadd` of `skin_split_invariant`); positive semi-definiteness of a stiffener's whole finalised
 contribution as a COO list (its symmetry is proved: `stiffener_contribution_symmetric`; positive semi-definiteness is proved for the
 per-pair values of the stiffener kernels, and for the base / flange panels themselves in C02/C04).
 -/
 import CompmechVerif.Model.AssemblyLemmas
 import CompmechVerif.Model.PanelLoopLemmas
+import CompmechVerif.Model.ConnLoopLemmas
 import CompmechVerif.Gen.Stiff.Blade1D
 import CompmechVerif.Gen.Stiff.Blade2D
 import CompmechVerif.Gen.Stiff.T2D
@@ -293,6 +295,21 @@ stand-alone result (kernel-checked instance: one field, m = 2, n = 1, row0 = 2, 
 theorem panel_kernel_placement_offdiagonal_counterexample :
     (loopNest 1 2 1 2 0 (fun _ _ _ _ _ _ => (1 : ℚ))).length ≠
       (shift 2 0 (loopNest 1 2 1 0 0 (fun _ _ _ _ _ _ => (1 : ℚ)))).length := by decide
+
+open Compmech.PanelLoop in
+/-- the penalty-connection kernels (loop nests of Model/ConnLoop.lean, both loop orders): a diagonal-block kernel `fkC…11` / `fkC…22` asked to write
+at `row0 = col0 = r0`, and a coupling kernel `fkC…12` asked to write at ANY `(row0, col0)` (it has no `row > col` skip), return exactly their
+stand-alone results shifted there — what `connection_blocks_placement` and `get_k0_conn_psd` (Props/C12) assume of `Conn.k11, k12, k22` -/
+theorem conn_kernel_placement (yx : Bool) (m1 n1 m2 n2 r0 c0 : Nat) (e : Fin 3 → Fin 3 → Nat → Nat → Nat → Nat → K) :
+    connNestDiag yx m1 n1 r0 e = shift r0 r0 (connNestDiag yx m1 n1 0 e) ∧
+    connNest12 yx m1 n1 m2 n2 r0 c0 e = shift r0 c0 (connNest12 yx m1 n1 m2 n2 0 0 e) :=
+  ⟨connNestDiag_shift yx m1 n1 r0 e, connNest12_shift yx m1 n1 m2 n2 r0 c0 e⟩
+
+open Compmech.PanelLoop in
+/-- non-vacuity: a coupling kernel of a 2×1 and a 1×2 series written at (rows from 9, columns from 0) — below the diagonal, as for `p1` after `p2` -/
+example : connNest12 false 2 1 1 2 9 0 (fun ro co i k j l => ((ro.val + 3 * co.val + 10 * i + 100 * l : Nat) : ℚ)) =
+    shift 9 0 (connNest12 false 2 1 1 2 0 0 (fun ro co i k j l => ((ro.val + 3 * co.val + 10 * i + 100 * l : Nat) : ℚ))) :=
+  (conn_kernel_placement false 2 1 1 2 9 0 _).2
 
 /-! ### the stiffener kernels (regenerated from compmech/stiffener/models/*.pyx: `Gen/Stiff/*`)
 
